@@ -37,6 +37,59 @@ def gen(tier, rng):
         for b in bodies:
             for ct in cts:
                 out.append((c05.http_line("sync", "revoke", False, status, ct, b), "status-product"))
+    # literals that are new in the source (gen/srclit.py): words as scheme / host / path of the revocation URL, as token, as
+    # custom hint, as Content-Type; statuses; integers as token / hint / URL lengths and body sizes
+    from gen import srclit as SL
+    for w in SL.words():
+        tok = "".join(c for c in w if c.isalnum() or c in "+-.")
+        urls = ["https://r.example/" + tok, "https://r.example/revoke?" + tok + "=1", "https://" + (tok or "x") + ".example/revoke", "http://r.example/" + tok]
+        if tok and tok[0].isalpha():
+            urls += [tok + "://r.example/revoke", tok + ":https://r.example/revoke", "https+" + tok + "://r.example/revoke", tok + "+https://r.example/revoke", tok.upper() + "://r.example/revoke"]
+        for url in urls:
+            for tk, hint in (("A", None), ("R", None), ("C", None), ("C", w)):
+                i += 1
+                l = R.req_line("sync" if i % 2 else "async", "revoke", "BR"[i % 2], "aaa", "bbb", url, None, C.tb("tok"), tk, C.topt(hint), [], [])
+                if l:
+                    out.append((l, "source-literal/url"))
+        for tk, hint in (("A", None), ("R", None), ("AF", None), ("RFR", None), ("C", None), ("C", w), ("C", w.upper()), ("C", " " + w)):
+            for token in (w, w + " ", "x" + w):
+                i += 1
+                l = R.req_line("sync" if i % 2 else "async", "revoke", "BR"[i % 2], "aaa", "bbb" if i % 3 else None, R.REVOKE_ENDPOINTS[0], None, C.tb(token), tk, C.topt(hint), [], [(w, "v")] if i % 2 else [])
+                if l:
+                    out.append((l, "source-literal/token"))
+        try:
+            wb = w.encode("ascii")
+        except UnicodeEncodeError:
+            wb = b""
+        if wb and all(0x20 <= c < 0x7f for c in wb):
+            for status in (200, 400):
+                for b in bodies[:6]:
+                    for ct in (wb, b"application/" + wb, b"application/json; " + wb):
+                        out.append((c05.http_line("sync", "revoke", False, status, ct, b), "source-literal/content-type"))
+        for status in (200, 400, 503):
+            for body in (w, '{"error":"%s"}' % w if '"' not in w and "\\" not in w else "{}", '{"error":"invalid_client","%s":1}' % w if '"' not in w and "\\" not in w else "{}"):
+                out.append((c05.http_line("async", "revoke", False, status, None, body), "source-literal/body"))
+    for st in SL.statuses():
+        for b in bodies:
+            for ct in cts:
+                out.append((c05.http_line("sync" if len(b) % 2 else "async", "revoke", False, st, ct, b), "source-literal/status"))
+    for k in SL.sizes(limit=300000, lo=0):
+        for tk, hint in (("A", None), ("R", None), ("C", "h" * k)):
+            i += 1
+            l = R.req_line("sync" if i % 2 else "async", "revoke", "BR"[i % 2], "aaa", "bbb", R.REVOKE_ENDPOINTS[0], None, C.tb("t" * k), tk, C.topt(hint), [], [])
+            if l:
+                out.append((l, "source-literal/length"))
+        base = "https://r.example/revoke?x="
+        if k > len(base):
+            for scheme_url in (base + "a" * (k - len(base)), "http://r.example/revoke?x=" + "a" * (k - len(base) + 1)):
+                l = R.req_line("sync", "revoke", "B", "aaa", "bbb", scheme_url, None, C.tb("tok"), "A", C.topt(None), [], [])
+                if l:
+                    out.append((l, "source-literal/url-length"))
+        for status in (200, 400):
+            out.append((c05.http_line("sync", "revoke", False, status, None, b"x" * k), "source-literal/body-size"))
+            pad = '{"error":"invalid_client","error_description":""}'
+            if k >= len(pad):
+                out.append((c05.http_line("async", "revoke", False, status, b"application/json", pad.replace('""', '"%s"' % ("d" * (k - len(pad))))), "source-literal/body-size"))
     n = 100 if tier == "quick" else 5000
     for _ in range(n):
         em = D.error_members(rng)
